@@ -41,10 +41,12 @@ def codec : FecDec.Codec where
   rFull _ _ _ := false
   rDecode _ _ _ := none
 
-def params : ObjRecv.Params where
+/-- the DEGENERATE parameter set of the `recv` driver (No-Code only, every inflate answers `Err`, writer never fails): the
+    adapter below is generic in the parameters; this value is what the driver executes and the non-vacuity instance -/
+def params0 : ObjRecv.Params where
   codec := codec
   dzRead _ _ _ := { take := 0, res := .err }
-  dzFuel := 1000
+  dzFuel := fun _ => 1000
   md5 _ := ""
   env := { plan := fun _ => { ans := .store, md5Check := false, openOk := true, writeOk := fun _ => true } }
 
@@ -59,13 +61,16 @@ def toPkt (p : Recv.Pkt) : ObjRecv.Pkt :=
     payload := p.raw.drop (p.dlen - p.plen),
     dataLen := p.dlen }
 
+-- the parameters of the object model: codecs, decompressor, writer environment
+variable (P : ObjRecv.Params)
+
 structure Obj where
   st : ObjRecv.St
   cc : Option CacheControl := none
   fault : Bool := false
   /-- the object state is one that `new`/`push`/`attach_fdt` can produce: carries the invariants of
       agent orecv's model (`Lemmas/ObjRecvAttach.lean`); a proof, erased at run time -/
-  reach : ObjRecv.Reach params st
+  reach : ObjRecv.Reach P st
 
 def stateOf : ObjRecv.OState → ObjState
   | .receiving => .receiving
@@ -85,16 +90,16 @@ def wev (cc : Option CacheControl) : ObjRecv.WCall → WEv
 def newCalls (cc : Option CacheControl) (before after : ObjRecv.St) : List WEv :=
   ((after.out.take (after.out.length - before.out.length)).reverse).map (wev cc)
 
-def new (toi maxCache : Nat) : Obj :=
-  { st := ObjRecv.St.new toi maxCache, reach := ObjRecv.reach_new params toi maxCache }
+def new (toi maxCache : Nat) : Obj P :=
+  { st := ObjRecv.St.new toi maxCache, reach := ObjRecv.reach_new P toi maxCache }
 
 /-- `ObjectReceiver::push` for a packet of TOI ≠ 0 -/
-def pushN (o : Obj) (p : Recv.Pkt) : Obj × List WEv :=
+def pushN (o : Obj P) (p : Recv.Pkt) : Obj P × List WEv :=
   if o.fault then (o, []) else
-  match h : ObjRecv.push params o.st (toPkt p) with
+  match h : ObjRecv.push P o.st (toPkt p) with
   | .error _ => ({ o with fault := true }, [])
   | .ok st' =>
-    ({ o with st := st', reach := ObjRecv.reach_push params o.st (toPkt p) o.reach h }, newCalls o.cc o.st st')
+    ({ o with st := st', reach := ObjRecv.reach_push P o.st (toPkt p) o.reach h }, newCalls o.cc o.st st')
 
 /-- The File entry that stands for EXT_FTI / EXT_CENC of an FDT packet.  `ObjRecv.push` leaves out the
     two TOI-0-only branches of `ObjectReceiver::push` - `set_fdt_id_from_pkt` (the FDT object takes its
@@ -110,50 +115,50 @@ def fdtEntry0 (q : ObjRecv.Pkt) : Option ObjRecv.FileEntry :=
                         noCache := false })
 
 /-- `ObjectReceiver::push` for a packet of TOI 0 (the object inside an `FdtReceiver`) -/
-def push0 (o : Obj) (p : Recv.Pkt) : Obj × List WEv :=
+def push0 (o : Obj P) (p : Recv.Pkt) : Obj P × List WEv :=
   if o.fault then (o, []) else
-  match h : ObjRecv.attachFdt params o.st (p.fdtId.getD 0) (fdtEntry0 (toPkt p)) with
+  match h : ObjRecv.attachFdt P o.st (p.fdtId.getD 0) (fdtEntry0 (toPkt p)) with
   | .error _ => ({ o with fault := true }, [])
   | .ok (st1, _) =>
-    match h2 : ObjRecv.push params st1 (toPkt p) with
+    match h2 : ObjRecv.push P st1 (toPkt p) with
     | .error _ => ({ o with fault := true }, [])
     | .ok st' =>
       ({ o with st := st',
-                reach := ObjRecv.reach_push params st1 (toPkt p)
-                  (ObjRecv.reach_attach params o.st _ _ o.reach h) h2 },
+                reach := ObjRecv.reach_push P st1 (toPkt p)
+                  (ObjRecv.reach_attach P o.st _ _ o.reach h) h2 },
        newCalls o.cc o.st st')
 
-def push (o : Obj) (p : Recv.Pkt) : Obj × List WEv :=
-  if p.toi = 0 then push0 o p else pushN o p
+def push (o : Obj P) (p : Recv.Pkt) : Obj P × List WEv :=
+  if p.toi = 0 then push0 P o p else pushN P o p
 
 def entryOf (x : FileAbs) (cc : CacheControl) : ObjRecv.FileEntry :=
   { oti := x.oti.map otiOf, tl := x.tlen, cl := x.contentLength, cenc := cencOf x.cenc, md5 := none,
     noCache := decide (cc = .noCache) }
 
-def attachFdt (o : Obj) (id : Nat) (fdt : FdtAbs) : Obj × Bool × List WEv :=
+def attachFdt (o : Obj P) (id : Nat) (fdt : FdtAbs) : Obj P × Bool × List WEv :=
   if o.fault then (o, false, []) else
   let file := fdt.getFile o.st.toi
   let cc := file.map (fun x => x.cacheControl fdt.expirationDate)
-  match h : ObjRecv.attachFdt params o.st id (file.map (fun x => entryOf x (x.cacheControl fdt.expirationDate))) with
+  match h : ObjRecv.attachFdt P o.st id (file.map (fun x => entryOf x (x.cacheControl fdt.expirationDate))) with
   | .error _ => ({ o with fault := true }, false, [])
   | .ok (st', ok) =>
     let cc' := if ok then cc else o.cc
-    ({ o with st := st', cc := cc', reach := ObjRecv.reach_attach params o.st id _ o.reach h }, ok, newCalls cc' o.st st')
+    ({ o with st := st', cc := cc', reach := ObjRecv.reach_attach P o.st id _ o.reach h }, ok, newCalls cc' o.st st')
 
-def drop (o : Obj) : List WEv := newCalls o.cc o.st (ObjRecv.drop o.st)
+def drop (o : Obj P) : List WEv := newCalls o.cc o.st (ObjRecv.drop o.st)
 
 /-- every object, the one inside an `FdtReceiver` (TOI 0) included, is an `ObjRecv` object (`push0`);
     the `Mini` summand is kept so that both instantiations share the type (never constructed by `iface`) -/
-abbrev Any := Mini.Obj ⊕ Obj
+abbrev Any := Mini.Obj ⊕ Obj P
 
-def iface : ObjIface Any where
-  new toi mc := .inr (new toi mc)
+def iface : ObjIface (Any P) where
+  new toi mc := .inr (new P toi mc)
   push o p := match o with
     | .inl m => let r := Mini.push m p; (.inl r.1, r.2)
-    | .inr f => let r := push f p; (.inr r.1, r.2)
+    | .inr f => let r := push P f p; (.inr r.1, r.2)
   attachFdt o id fdt := match o with
     | .inl m => let r := Mini.attachFdt m id fdt; (.inl r.1, r.2.1, r.2.2)
-    | .inr f => let r := attachFdt f id fdt; (.inr r.1, r.2.1, r.2.2)
+    | .inr f => let r := attachFdt P f id fdt; (.inr r.1, r.2.1, r.2.2)
   state o := match o with
     | .inl m => m.st
     | .inr f => stateOf f.st.state
@@ -162,6 +167,6 @@ def iface : ObjIface Any where
     | .inr f => f.cc
   drop o := match o with
     | .inl m => Mini.drop m
-    | .inr f => drop f
+    | .inr f => drop P f
 
 end Flute.Recv.Full
